@@ -53,14 +53,31 @@ Rich == {A, S, LongString("ls"), Int("1"), Float("1.5"), RTime("2s"), Bool(TRUE)
 \* (all 48 x 48 pairs cost TLC's single-threaded set construction more than ten minutes and add little)
 Partners == IF Full THEN {A, S, Int("1"), LongString("ls"), CallX("f", <<>>), IfX(A, S, B), Group(A), Not(A)} ELSE {A, S, Int("1")}
 R1 == {Bin(o, x, p) : o \in BinOps, x \in Rich, p \in Partners} \cup {Bin(o, p, x) : o \in BinOps, x \in Rich, p \in Partners}
+\* the contexts an expression is written in: the value of a set statement (ends at ";"), an if condition (ends at
+\* ")"), the first and the last argument of a function call (ends at "," / ")")
 ExprCtx(e, ctx) ==
-  IF ctx = "set" THEN SubD("s", <<>>, None, Block(<<SetS("req.http.R", "=", e)>>))
-  ELSE SubD("s", <<>>, None, Block(<<IfS(e, Block(<<Simple("esi")>>), <<>>, None)>>))
+  CASE ctx = "set" -> SubD("s", <<>>, None, Block(<<SetS("req.http.R", "=", e)>>))
+    [] ctx = "if"  -> SubD("s", <<>>, None, Block(<<IfS(e, Block(<<Simple("esi")>>), <<>>, None)>>))
+    [] ctx = "arg" -> SubD("s", <<>>, None, Block(<<SetS("req.http.R", "=", CallX("f", <<e, A, e>>))>>))
+Ctxs == {"set", "if", "arg"}
+\* Every ordered pair of operators nested directly, on either side, over one atom kind per side (so that a
+\* juxtaposition is legal): (a o1 s) o2 a  and  a o1 (s o2 a) for all 13 x 13 pairs - with minimal parentheses the
+\* tighter operator stands un-parenthesised on the left and on the right of the looser one.
+N2 == {Bin(o2, Bin(o1, A, S), A) : o1 \in BinOps, o2 \in BinOps} \cup {Bin(o1, A, Bin(o2, S, A)) : o1 \in BinOps, o2 \in BinOps}
+\* chains of three operators of strictly increasing tightness, nested to the right and to the left, so that the
+\* innermost un-parenthesised operand sits below two looser operators (x || y && z ~ "a" b)
+N3 == {Bin(o1, A, Bin(o2, B, Bin(o3, S, A))) : o1 \in BinOps, o2 \in BinOps, o3 \in BinOps}
+      \cup {Bin(o1, Bin(o2, Bin(o3, A, S), B), A) : o1 \in BinOps, o2 \in BinOps, o3 \in BinOps}
+N3inc == {t \in N3 : LET a == t.op
+                         m == IF t.right.k = "infix" THEN t.right.op ELSE t.left.op
+                         i == IF t.right.k = "infix" THEN t.right.right.op ELSE t.left.left.op
+                     IN DocPrec(a) < DocPrec(m) /\ DocPrec(m) < DocPrec(i)}
 Both == {"minimal", "redundant"}
 \* which tree is written in which parenthesis mode and context (Full = thorough tier)
 ExprSel ==
   (IF "pairs" \in Families
-   THEN {<<t, m, c>> : t \in T0 \cup T1n \cup T1x, m \in Both, c \in {"set", "if"}}
+   THEN {<<t, m, c>> : t \in T0 \cup T1n \cup T1x \cup N2, m \in Both, c \in Ctxs}
+        \cup {<<t, "minimal", c>> : t \in N3inc, c \in Ctxs}
         \cup {<<t, m, c>> : t \in T2, m \in (IF Full THEN Both ELSE {"minimal"}), c \in (IF Full THEN {"set", "if"} ELSE {"set"})}
    ELSE {})
   \cup (IF "atoms" \in Families
@@ -202,7 +219,17 @@ Spec == Init /\ [][Next]_vars
 PrattOK    == stage = 2 /\ case[1] = "expr" => PrattAgrees(CaseE(case))
 DispatchOK == stage = 2 /\ case[1] \in {"stmt", "decl"} => DispatchAgrees(case[2], case[1] = "decl")
 Texts(toks) == [i \in 1..Len(toks) |-> toks[i].s]
-Emit == stage = 2 => PrintT(<<"BEHAVIOUR", ToJson([fam |-> case[1], toks |-> Texts(RenderStmt(CaseVcl(case))),
+\* What the generated expressions must contain for the precedence table to be exercised (printed once, checked by
+\* the orchestrator against the printed cases - a vacuity guard on the generator): for every operator p and every
+\* operator c that needs no parentheses below it - on the left when c binds at least as tightly (left to right
+\* grouping), on the right when c binds strictly tighter - the pair <<p, c, side>>, un-parenthesised, in each context.
+OpName(o) == IF o = "juxt" THEN "+" ELSE o
+RequiredPairs == {<<OpName(q[1]), OpName(q[2]), "left">> : q \in {r \in BinOps \X BinOps : DocPrec(r[2]) >= DocPrec(r[1])}}
+                 \cup {<<OpName(q[1]), OpName(q[2]), "right">> : q \in {r \in BinOps \X BinOps : DocPrec(r[2]) > DocPrec(r[1])}}
+EmitRequired == stage = 0 => PrintT(<<"BEHAVIOUR", ToJson([fam |-> "required-pairs", ctxs |-> Ctxs, pairs |-> RequiredPairs,
+                                                           levels |-> [o \in {OpName(x) : x \in BinOps} |-> DocPrec(IF o = "+" THEN "juxt" ELSE o)]])>>)
+Emit == stage = 2 => PrintT(<<"BEHAVIOUR", ToJson([fam |-> case[1], ctx |-> IF case[1] = "expr" THEN case[2][3] ELSE "",
+                                                   toks |-> Texts(RenderStmt(CaseVcl(case))),
                                                    tree |-> StripStmt(CaseVcl(case)),
                                                    req |-> [pratt |-> PrattOK, dispatch |-> DispatchOK]])>>)
 =============================================================================
